@@ -360,13 +360,19 @@ def lookupText (k : Str) : List (Str × Str) → Option Str
   | [] => none
   | (k', x) :: t => if k' = k then some x else lookupText k t
 
-/-- for each key of the list, in list order, the member text if the object has that key -/
-def selectTexts : List Str → List (Str × Str) → List (Str × Str)
+/-- "__proto__" -/
+def protoKey : Str := [95, 95, 112, 114, 111, 116, 111, 95, 95]
+
+/-- SerializeJSONProperty reads the member with [[Get]], which also sees inherited properties.  For the plain objects
+    of the model (prototype %Object.prototype%) the only inherited property that serialises is the accessor
+    `__proto__`: it yields %Object.prototype%, an object whose own `__proto__` accessor yields null and whose other
+    properties are functions (skipped).  `protoText` is the text of that object under the same allow-list. -/
+def selectTexts (protoText : Str) : List Str → List (Str × Str) → List (Str × Str)
   | [], _ => []
   | k :: pl, mt =>
     match lookupText k mt with
-    | some x => (k, x) :: selectTexts pl mt
-    | none => selectTexts pl mt
+    | some x => (k, x) :: selectTexts protoText pl mt
+    | none => if k = protoKey then (k, protoText) :: selectTexts protoText pl mt else selectTexts protoText pl mt
 
 /-- `"key":` (+ space) `text`, separated by "," (+ newline, indent), closed by the brace at indent `ind` -/
 def joinMembers (gap ind ind' : Str) : List (Str × Str) → Str
@@ -387,7 +393,9 @@ def serP (pl : List Str) (gap ind : Str) : JVal → Str
   | .arr xs =>
     if xs.isEmpty then [91, 93]
     else 91 :: (nl gap (ind ++ gap) ++ serElemsP pl gap ind (ind ++ gap) xs)
-  | .obj ms => assembleObj gap ind (selectTexts pl (memberTexts pl gap (ind ++ gap) ms))
+  | .obj ms =>
+    assembleObj gap ind
+      (selectTexts (assembleObj gap (ind ++ gap) [(protoKey, [110, 117, 108, 108])]) pl (memberTexts pl gap (ind ++ gap) ms))
 def serElemsP (pl : List Str) (gap ind ind' : Str) : List JVal → Str
   | [] => nl gap ind ++ [93]
   | v :: t => serP pl gap ind' v ++ (sepIf (!t.isEmpty) gap ind' ++ serElemsP pl gap ind ind' t)
@@ -405,12 +413,15 @@ def lookupKey (k : Str) : List (Str × JVal) → Option JVal
   | [] => none
   | (k', v) :: t => if k' = k then some v else lookupKey k t
 
+/-- %Object.prototype% as seen through an allow-list that contains "__proto__" -/
+def protoProj : JVal := .obj [(protoKey, .null)]
+
 def selectMembers : List Str → List (Str × JVal) → List (Str × JVal)
   | [], _ => []
   | k :: pl, ms =>
     match lookupKey k ms with
     | some v => (k, v) :: selectMembers pl ms
-    | none => selectMembers pl ms
+    | none => if k = protoKey then (k, protoProj) :: selectMembers pl ms else selectMembers pl ms
 
 mutual
 /-- the value restricted, at every object level, to the keys of the list, in list order -/
